@@ -29,6 +29,7 @@ import Props.C12
 import Proofs.Base64
 import Proofs.Pairings
 import Proofs.RowRoundTrip
+import Proofs.RowRoundTripN
 
 namespace Jl.C13
 open Jl Jl.Value Jl.JsonQuote Cast
@@ -179,5 +180,65 @@ theorem string_number_needs_utf8 (ext : Ext) (key : Bytes) (hk : sanitize key = 
     Tables.inDomain .string .num (.num [0xFF]) = false :=
   ⟨(RowRoundTrip.string_num_not_lossless ext key hk).2.2.1, by
     simp [Tables.inDomain, Utf8.valid, Utf8.seqLen, JsonWrite.isValidNumber]⟩
+
+/-! ### Templates with ANY number of columns (`Proofs/RowRoundTripN`) -/
+
+/-- C13 for a template with any number of columns, in the words of the tables.  `t` declares distinct
+    names (what every sequence of `With…` calls builds: `templates_built_by_with`), the visible names are
+    ones the escaper leaves alone, every visible column is one of the pairings covered outright, the Go
+    map handed to `CreateRow` / `Export` holds under every declared name nil or a value of the column's
+    Go type in the property's domain, and names the template does not declare are carried as scalars
+    (`ExtrasOK`; nothing is asked when every name is declared).  Then: every visible pairing is in
+    `Tables.lossless`; the route create → marshal → create empty → unmarshal and the route
+    `Exporter.Export` → `Importer.GetRow` both succeed on the same bytes; the text holds the visible
+    names in DECLARATION order whatever the map's order; the row read back holds the declared columns in
+    declaration order; every visible column is read back with the same value and the same Go type
+    (`Tables.sameValue`; nil for a name the map does not hold); hidden columns come back nil. -/
+theorem n_columns_lossless (ext : Ext) (t : Template.Tmpl) (m : DynMap)
+    (hnd : (OMap.keys t).Nodup) (hp : RowRoundTripN.Proto t)
+    (hkeys : ∀ k ∈ RowPrint.visibleKeys t, sanitize k = k)
+    (hcov : ∀ k f ty, (k, Val.cell .nil f ty) ∈ t → f ≠ .hidden → RowRoundTrip.coveredB f ty = true)
+    (hm : RowRoundTripN.WellTypedMap t m) (hx : RowRoundTripN.ExtrasOK ⟨genTables, ext⟩ t m) :
+    (∀ k f ty, (k, Val.cell .nil f ty) ∈ t → f ≠ .hidden → Tables.lossless f ty = true) ∧
+    RowRoundTripN.RowLosslessN ⟨genTables, ext⟩ t m :=
+  RowRoundTripN.lossless_N ext t m hnd hp hkeys hcov hm hx
+
+/-- The same with the five pairings that consult the process zone or ParseFloat allowed too. -/
+theorem n_columns_lossless_ext (ext : Ext) (hzone : ∀ s, ∃ off, ext.zoneOffset s = some off)
+    (law : Pairings.DigitLaw ext) (t : Template.Tmpl) (m : DynMap)
+    (hnd : (OMap.keys t).Nodup) (hp : RowRoundTripN.Proto t)
+    (hkeys : ∀ k ∈ RowPrint.visibleKeys t, sanitize k = k)
+    (hcov : ∀ k f ty, (k, Val.cell .nil f ty) ∈ t → f ≠ .hidden →
+      RowRoundTrip.coveredB f ty = true ∨ (f, ty) ∈ RowRoundTrip.coveredExt)
+    (hm : RowRoundTripN.WellTypedMap t m) (hx : RowRoundTripN.ExtrasOK ⟨genTables, ext⟩ t m) :
+    (∀ k f ty, (k, Val.cell .nil f ty) ∈ t → f ≠ .hidden → Tables.lossless f ty = true) ∧
+    RowRoundTripN.RowLosslessN ⟨genTables, ext⟩ t m :=
+  RowRoundTripN.lossless_N_ext ext hzone law t m hnd hp hkeys hcov hm hx
+
+/-- The two public entry points alone, every name of the map declared: `Export` then `GetRow`. -/
+theorem n_columns_line (ext : Ext) (t : Template.Tmpl) (m : DynMap)
+    (hnd : (OMap.keys t).Nodup) (hp : RowRoundTripN.Proto t)
+    (hkeys : ∀ k ∈ RowPrint.visibleKeys t, sanitize k = k)
+    (hcov : ∀ k f ty, (k, Val.cell .nil f ty) ∈ t → f ≠ .hidden → RowRoundTrip.coveredB f ty = true)
+    (hm : RowRoundTripN.WellTypedMap t m) (hdecl : ∀ kv ∈ m.toList, kv.1 ∈ OMap.keys t) :
+    ∃ bytes r, RowRoundTripN.LineRouteN ⟨genTables, ext⟩ t (.gomap m) bytes r ∧
+      Order.inputKeys bytes = RowPrint.visibleKeys t ∧ OMap.keys r = OMap.keys t ∧
+      RowRoundTripN.ColumnsSurvive t m r :=
+  RowRoundTripN.line_lossless_N ext t m hnd hp hkeys hcov hm hdecl
+
+/-- Hidden columns are the reason `Tables.lossless` excludes `hidden(…)`: whatever a hidden column held,
+    the row read back holds nil there. -/
+theorem hidden_columns_do_not_survive {t : Template.Tmpl} {m : DynMap} {r : List (Bytes × Val)}
+    (h : RowRoundTripN.ColumnsSurvive t m r) (k : Bytes) (ty : Ty)
+    (hm : (k, Val.cell .nil .hidden ty) ∈ t) (hv : RowRoundTripN.valOf m k ≠ .nil) :
+    ∃ v', (Value.lookup r k).map Cells.raw = some v' ∧
+      Tables.sameValue (RowRoundTripN.valOf m k) v' = false :=
+  RowRoundTripN.hidden_lost h k ty hm hv
+
+/-- The hypotheses "distinct names" and "cell prototypes" are no restriction on templates built by
+    `With(name, format, rawtype)` calls, in any number and with repeated names. -/
+theorem templates_built_by_with (cols : List (Bytes × Format × Ty)) :
+    (OMap.keys (RowRoundTripN.ofCols cols)).Nodup ∧ RowRoundTripN.Proto (RowRoundTripN.ofCols cols) :=
+  RowRoundTripN.ofCols_ok cols
 
 end Jl.C13
